@@ -573,7 +573,12 @@ def run(ck, prog, ctx):
                 via_pred[bi] = (params_of(pvn.of_operand(b, t.args[1]), b.id), params_of(pvn.of_operand(b, t.args[0]), b.id))
                 closure_tests.append((bi, t))
         if not closure_tests:
-            ck.ob("FIELD", nm + "/prune", False, "%s has no pruning test on the closure set: unrelated terms are searched / reported" % nm, where=b.where())
+            from engines import private_scope
+            far = [xb for xb in private_scope(prog, b) if xb.id != b.id and any(t_.callee.res == "term::group::HpoGroup::contains" and "all_parents" in field_names(pv.of_operand(xb, t_.args[0]), "::HpoTerm") or (co is not None and t_.callee.res == co.id) for _, t_ in xb.calls())]
+            if far:
+                ck.undecided("FIELD", nm + "/prune", "%s tests the closure set in private code outside its own body (%s): the shape of the pruning is not read there" % (nm, far[0].short), where=b.where())
+            else:
+                ck.ob("FIELD", nm + "/prune", False, "%s has no pruning test on the closure set: unrelated terms are searched / reported" % nm, where=b.where())
         for bi, t in closure_tests:
             k = pv.of_operand(b, t.args[1])
             if bi in via_pred:
@@ -591,6 +596,9 @@ def run(ck, prog, ctx):
                             for st in b.blocks[r].stmts:
                                 if st.k == "assign" and st.place.local == 0 and st.rv["k"] == "agg" and st.rv.get("variant") == "None":
                                     none_on_neg = True
+            if not (ok and none_on_neg) and b.loop_of(bi) is not None:
+                ck.undecided("FIELD", nm + "/prune", "%s is iterative: the closure-set test prunes inside a loop (its failing side skips one candidate instead of returning None)" % nm, where=b.where(t.line))
+                continue
             ck.ob("FIELD", nm + "/prune", ok and none_on_neg, "%s returns None unless other.id is in self.all_parents" % nm if ok and none_on_neg else "%s: pruning test does not have the shape `!self.all_parents.contains(other.id) -> None`" % nm, where=b.where(t.line))
 
     # ---- accessors: a method named after a field returns that field, not a sibling of the same type
